@@ -1151,16 +1151,18 @@ class Interp:
             self.contract_calls.add(con.qualname)
         self.assumptions_used.add(f"call of .{um.name}() on an object of unknown class: effects bounded by the contracts of all "
                                   f"{len(um.candidates)} program methods of that name")
+        from .builtins_model import FreshZ
+        # a new container built from a receiver that the caller may modify deeply holds only writable things
+        recv_deep = isinstance(um.recv, FreshZ) and bool(um.recv.deep)
         facts = [self.contracts.get(f"{f.__module__}:{f.__qualname__}#frame") for _, f in um.candidates]
         if len(facts) == 1 and facts[0] is not None and facts[0].ensures is not None:
             from .contract_apply import clause_bool
-            res = FreshZ(V.fresh(f"res_{um.name}"), None, True) if result_fresh else Z(V.fresh(f"res_{um.name}"))
+            res = FreshZ(V.fresh(f"res_{um.name}"), None, recv_deep) if result_fresh else Z(V.fresh(f"res_{um.name}"))
             self.path.assume(clause_bool(self, facts[0].ensures, {"result": res}, "result fact", mode="assume"))
             self.assumptions_used.add(f"assumed fact about the result of .{um.name}(): {facts[0].note or 'see contracts/frames.py RESULT_FACTS'}")
             return res
         if result_fresh:
-            from .builtins_model import FreshZ
-            return FreshZ(V.fresh(f"res_{um.name}"), None, True)
+            return FreshZ(V.fresh(f"res_{um.name}"), None, recv_deep)
         return Z(V.fresh(f"res_{um.name}"))
 
     def bind_class_attr(self, raw, inst, cls, via=None):
